@@ -48,11 +48,19 @@ func Verify(r io.Reader, keyring openpgp.EntityList, skipDigest bool) (map[strin
 		}
 		if strings.HasPrefix(hdr.Name, "_gpg") {
 			role := hdr.Name[4:]
+			if _, dup := sigs[role]; dup {
+				return nil, fmt.Errorf("duplicate signature member %s", hdr.Name)
+			}
 			sigs[role], err = ioutil.ReadAll(reader)
 			if err != nil {
 				return nil, err
 			}
 		} else if !skipDigest {
+			// package tools use the first member of a name; only the last one
+			// would be compared with the signed list
+			if _, dup := digests[hdr.Name]; dup {
+				return nil, fmt.Errorf("duplicate member %s", hdr.Name)
+			}
 			md5 := crypto.MD5.New()
 			sha1 := crypto.SHA1.New()
 			if _, err := io.Copy(io.MultiWriter(md5, sha1), reader); err != nil {
